@@ -39,8 +39,10 @@ VARIABLES c,      \* the case: [prog, tmpl, inpkg]
           pc, j,
           imp,    \* Registry.imports: package id -> qualifier
           scs,    \* one scope per method: [vis, vars]
-          tps     \* type-parameter data: sequence of [orig, name]
-vars == <<c, ms, pc, j, imp, scs, tps>>
+          tps,    \* type-parameter data of the current interface: sequence of [orig, name, c]
+          ti,     \* index of the interface being processed in Prog.targets
+          outs    \* finished interfaces of the file: [n, ms, scs, tps]
+vars == <<c, ms, pc, j, imp, scs, tps, ti, outs>>
 
 (* ------------------------------------------------------------------------ *)
 (* strings: ASCII case tables; "Zz"/"zz" prefixes stand for non-ASCII letters *)
@@ -56,20 +58,16 @@ Up(ch) == CASE ch = "a" -> "A" [] ch = "b" -> "B" [] ch = "c" -> "C" [] ch = "d"
             [] ch = "y" -> "Y" [] ch = "z" -> "Z" [] OTHER -> ch
 First(s) == SubSeq(s, 1, 1)
 Rest(s)  == SubSeq(s, 2, Len(s))
-NonAscii(s) == Len(s) >= 2 /\ SubSeq(s, 1, 2) \in {"Zz", "zz"}
-Bad == "!invalid"                       \* a string that is not a Go identifier (broken first byte)
-BadU == "!unsafe"                       \* "unsafe.Pointers" and the like: a dot inside a generated name
-IsBad(s) == Len(s) >= 1 /\ First(s) = "!"
-\* var.go deCapitalise / capitalise work on the first BYTE: garbage for a non-ASCII first letter
-DeCap(s) == IF IsBad(s) THEN s ELSE IF s = "" \/ NonAscii(s) THEN Bad ELSE Lo(First(s)) \o Rest(s)
-Cap(s)   == IF IsBad(s) THEN s ELSE IF s = "" \/ NonAscii(s) THEN Bad ELSE Up(First(s)) \o Rest(s)
+\* var.go deCapitalise / capitalise are rune-aware since 4c37ca2 ("Zz.." |-> "zz..", i.e. É |-> é)
+DeCap(s) == IF s = "" THEN "" ELSE Lo(First(s)) \o Rest(s)
+Cap(s)   == IF s = "" THEN "" ELSE Up(First(s)) \o Rest(s)
 \* template_funcs.Exported (rune-aware since d879be0; golint initialisms)
 Exported(s) == CASE s = "id" -> "ID" [] s = "url" -> "URL" [] s = "api" -> "API" [] s = "http" -> "HTTP"
                  [] OTHER -> IF s = "" THEN "" ELSE Up(First(s)) \o Rest(s)     \* "zz.." |-> "Zz.." (é |-> É)
 IsExportedName(s) == s # "" /\ First(s) # Lo(First(s))
 Keywords == {"break", "default", "func", "interface", "select", "case", "defer", "go", "map", "struct", "chan", "else", "goto",
              "package", "switch", "const", "fallthrough", "if", "range", "type", "continue", "for", "import", "return", "var"}
-ValidIdent(s) == s # "" /\ s # "_" /\ ~IsBad(s) /\ s \notin Keywords
+ValidIdent(s) == s # "" /\ s # "_" /\ s \notin Keywords
 
 (* ------------------------------------------------------------------------ *)
 (* IMPL: template/method_scope.go populateImportsHelper -- traversal ORDER   *)
@@ -95,21 +93,21 @@ BasicVarName(t) ==
   ELSE CASE t.n = "bool" -> "b" [] t.n \in {"int", "rune"} -> "n" [] t.n = "float64" -> "f" [] t.n = "string" -> "s"
          [] OTHER -> "v"                \* byte, uintptr (IsInteger|IsUnsigned # IsInteger), complex128
 RECURSIVE VarNameForType(_)
-\* nestedType(): deCapitalise(t.String()) for a *types.Basic -- "unsafe.Pointer" for unsafe.Pointer, not an identifier
-Nested(t) == IF t.k = "basic" /\ IsTrueBasic(t) THEN t.n ELSE IF t.k = "unsafe" THEN BadU ELSE VarNameForType(t)
+\* nestedType(): deCapitalise(t.Name()) for a *types.Basic -- "pointer" for unsafe.Pointer (since 4c37ca2)
+Nested(t) == IF t.k = "basic" /\ IsTrueBasic(t) THEN t.n ELSE IF t.k = "unsafe" THEN "pointer" ELSE VarNameForType(t)
 VarNameForType(t) ==
   CASE t.k = "basic" -> IF t.n = "error" THEN "err" ELSE IF t.n = "any" THEN "v" ELSE BasicVarName(t)
     [] t.k = "unsafe" -> "v"
     [] t.k = "tp"     -> "v"
     [] t.k \in {"named", "inst"} -> IF IsAliasTerm(t) THEN "v"
                                     ELSE LET d == DeCap(t.n) IN IF d = t.n THEN t.n \o "MoqParam" ELSE d
-    [] t.k \in {"array", "slice"} -> LET x == Nested(t.e) IN IF IsBad(x) THEN x ELSE x \o "s"
+    [] t.k \in {"array", "slice"} -> Nested(t.e) \o "s"
     [] t.k = "struct" -> "val"
     [] t.k = "ptr"    -> VarNameForType(t.e)
     [] t.k = "func"   -> "fn"
     [] t.k = "iface"  -> "ifaceVal"
-    [] t.k = "map"    -> LET a == Nested(t.key) b == Cap(Nested(t.e)) IN IF IsBad(a) THEN a ELSE IF IsBad(b) THEN b ELSE a \o "To" \o b
-    [] t.k = "chan"   -> LET x == Nested(t.e) IN IF IsBad(x) THEN x ELSE x \o "Ch"
+    [] t.k = "map"    -> Nested(t.key) \o "To" \o Cap(Nested(t.e))
+    [] t.k = "chan"   -> Nested(t.e) \o "Ch"
 GenReserved == Keywords \cup {"mock", "callInfo", "string", "bool", "byte", "rune", "uintptr", "int", "int8", "int16", "int32", "int64",
                               "uint", "uint8", "uint16", "uint32", "uint64", "float32", "float64", "complex64", "complex128"}
 VarName(v) == IF v.n \notin {"", "_"} THEN v.n
@@ -154,12 +152,19 @@ ResolveFrom(sc, i) ==
 Prog == c.prog
 Methods == ms
 MParams(m) == [i \in 1..Len(m.ps) |-> V(m.ps[i].n, ParamType(m, i))]
-TargetTps == Prog.decls[Prog.target].tps
+\* Prog.targets: the interfaces mocked into this one output file, in source order; the last one is Prog.target.
+\* One Registry per FILE: imports accumulate over the interfaces, later scopes see the earlier qualifiers.
+Cur == Prog.targets[ti]
+CurTps == Prog.decls[Cur].tps
+MethodsOf(prog, n) == SortByRank(TargetMethodSet(prog.decls, n))   \* go/types order of the completed interface
 
-Cases == [prog : Programs, tmpl : {"testify", "matryer"}, inpkg : BOOLEAN]
+\* ens: the matryer ensure line is rendered (skip-ensure unset/false); it decides an import since 8f33795
+Cases == [prog : Programs, tmpl : {"testify"}, inpkg : BOOLEAN, ens : {FALSE}]
+         \cup [prog : Programs, tmpl : {"matryer"}, inpkg : BOOLEAN, ens : BOOLEAN]
 
 Init == /\ c \in Cases
-        /\ ms = SortByRank(TargetMethodSet(c.prog.decls, c.prog.target))   \* go/types order of the completed interface
+        /\ ti = 1 /\ outs = << >>
+        /\ ms = MethodsOf(c.prog, c.prog.targets[1])
         /\ pc = "methods" /\ j = 1 /\ imp = << >> /\ scs = << >> /\ tps = << >>
 
 MethodData ==
@@ -170,26 +175,36 @@ MethodData ==
               st1 == AddVars(st0, MParams(m), "p", Prog.srcname, c.inpkg)
               st2 == AddVars(st1, m.rs, "r", Prog.srcname, c.inpkg)
           IN /\ imp' = st2.im /\ scs' = Append(scs, st2.sc) /\ j' = j + 1 /\ pc' = pc
-  /\ UNCHANGED <<c, ms, tps>>
+  /\ UNCHANGED <<c, ms, tps, ti, outs>>
 
 Resolve ==
   /\ pc = "resolve"
   /\ IF j > Len(scs) THEN pc' = "tparams" /\ j' = 1 /\ UNCHANGED scs
      ELSE scs' = [scs EXCEPT ![j] = ResolveFrom(scs[j], 1)] /\ j' = j + 1 /\ pc' = pc
-  /\ UNCHANGED <<c, ms, imp, tps>>
+  /\ UNCHANGED <<c, ms, imp, tps, ti, outs>>
 
+\* typeParams() of the current interface; then the next interface of the file (same registry), or the template
 TypeParams ==
   /\ pc = "tparams"
   /\ LET st0 == [sc |-> [vis |-> Range(imp) \ {""}, vars |-> << >>, np |-> 0], im |-> imp]
-         st1 == AddVars(st0, [i \in 1..Len(TargetTps) |-> V(TargetTps[i].n, TargetTps[i].c)], "tp", Prog.srcname, c.inpkg)
+         st1 == AddVars(st0, [i \in 1..Len(CurTps) |-> V(CurTps[i].n, CurTps[i].c)], "tp", Prog.srcname, c.inpkg)
+         tp  == [i \in 1..Len(CurTps) |-> [orig |-> CurTps[i].n, name |-> st1.sc.vars[i].name, c |-> CurTps[i].c]]
      IN /\ imp' = st1.im
-        /\ tps' = [i \in 1..Len(TargetTps) |-> [orig |-> TargetTps[i].n, name |-> st1.sc.vars[i].name]]
-  /\ pc' = "template" /\ UNCHANGED <<c, ms, j, scs>>
+        /\ outs' = Append(outs, [n |-> Cur, ms |-> ms, scs |-> scs, tps |-> tp])
+        /\ IF ti < Len(Prog.targets)
+           THEN /\ ti' = ti + 1 /\ ms' = MethodsOf(Prog, Prog.targets[ti + 1]) /\ scs' = << >> /\ tps' = << >>
+                /\ pc' = "methods" /\ j' = 1
+           ELSE /\ tps' = tp /\ pc' = "template" /\ UNCHANGED <<ti, ms, scs, j>>
+  /\ UNCHANGED c
 
+AnyMethods == \E t \in 1..Len(outs) : Len(outs[t].ms) > 0          \* Interfaces.ImplementsSomeMethod
 Template ==
   /\ pc = "template"
-  /\ imp' = IF c.tmpl = "matryer" /\ Len(Methods) > 0 THEN AddImport(imp, "Ssync", Prog.srcname, c.inpkg) ELSE imp
-  /\ pc' = "done" /\ UNCHANGED <<c, ms, j, scs, tps>>
+  /\ LET i1 == IF c.tmpl = "matryer" /\ AnyMethods THEN AddImport(imp, "Ssync", Prog.srcname, c.inpkg) ELSE imp
+         \* mock_matryer.templ:17-26 (8f33795): the ensure line's source package goes through the registry
+         i2 == IF c.tmpl = "matryer" /\ c.ens /\ ~c.inpkg THEN AddImport(i1, "SRC", Prog.srcname, c.inpkg) ELSE i1
+     IN imp' = i2
+  /\ pc' = "done" /\ UNCHANGED <<c, ms, j, scs, tps, ti, outs>>
 
 Next == MethodData \/ Resolve \/ TypeParams \/ Template
 Spec == Init /\ [][Next]_vars
@@ -229,7 +244,7 @@ TestifyMethodIssues(m, sc, unroll) ==
                   \cup (IF nr > 0 /\ \E i \in 1..nr : Nillable(RT[i]) /\ ~(RT[i].k = "basic" /\ RT[i].n = "error") THEN {"nil"} ELSE {})
                   \cup (IF unrolled THEN {"append"} ELSE {}) \cup (IF needVa THEN {"make", "len"} ELSE {})
                   \cup (IF m.va /\ ~unroll /\ nr > 0 THEN {"mock"} ELSE {})
-      runBind == {"_c", "run", "args"} \cup (IF m.va THEN {"variadicArgs", "i", "a"} ELSE {})
+      runBind == {"_c", "run", "args"} \cup {"arg" \o ToString(i - 1) : i \in 1..np} \cup (IF m.va THEN {"variadicArgs", "i", "a"} ELSE {})
       runUses == TypeUses(PT) \cup {"mock"} \cup (IF m.va THEN {"len", "nil"} \cup (IF unroll THEN {"make"} ELSE {}) ELSE {})
   IN (IF P \cap bodyTop # {} THEN {"tpl-redeclare"} ELSE {})
      \cup (IF bodyUses \cap (P \cup bodyInner) # {} THEN {"tpl-capture"} ELSE {})
@@ -238,8 +253,6 @@ TestifyMethodIssues(m, sc, unroll) ==
      \cup (IF m.va /\ "append" \in P THEN {"tpl-capture"} ELSE {})
      \cup (IF runUses \cap runBind # {} THEN {"tpl-capture-type"} ELSE {})
      \cup (IF "_c" \in R THEN {"tpl-redeclare"} ELSE {})
-     \* :129-130 the all-results provider is asserted as func(ArgTypeList) but called with the ellipsis form
-     \cup (IF m.va /\ unroll /\ nr > 1 THEN {"unroll-multi-return"} ELSE {})
 
 MatryerMethodIssues(m, sc, stub) ==
   LET Pn == Names(sc, "p") Rn == Names(sc, "r")
@@ -262,28 +275,32 @@ FileIssues(opts) ==
   IN (IF c.tmpl = "testify" /\ clash THEN {"import-qual-clash"} ELSE {})
      \cup (IF c.tmpl = "testify" /\ "mock" \in localnames THEN {"import-vs-local-decl"} ELSE {})
      \cup (IF Range(imp) \cap localnames # {} THEN {"import-vs-local-decl"} ELSE {})
-     \cup (IF \E i \in 1..Len(tps) : Exported(tps[i].name) # tps[i].orig THEN {"tparam-case"} ELSE {})
-     \* methods of the generic mock declare the type parameters in their receiver: a parameter of that name redeclares it
-     \cup (IF \E i \in 1..Len(scs) : \E k \in 1..Len(scs[i].vars) : scs[i].vars[k].name \in {Exported(tps[x].name) : x \in 1..Len(tps)}
-           THEN {"param-vs-tparam"} ELSE {})
-     \cup (IF c.tmpl = "matryer" /\ ~opts.skipensure /\ ~c.inpkg /\ Qual(imp, "SRC") # Prog.srcname THEN {"ensure-src-qualifier"} ELSE {})
-     \cup (IF c.tmpl = "matryer" /\ ~opts.skipensure
-              /\ \E i \in 1..Len(TargetTps) : ~ConstraintIsExplicit(TargetTps[i].c) /\ ~(TargetTps[i].c.k = "basic" /\ TargetTps[i].c.n = "any")
-                                               /\ TargetTps[i].c.k \notin {"named", "iface"}
-           THEN {"ensure-constraint-text"} ELSE {})
+
+\* one interface of the file: o = [n, ms, scs, tps]
+IfaceIssues(o, opts) ==
+  (IF \E i \in 1..Len(o.tps) : Exported(o.tps[i].name) # o.tps[i].orig THEN {"tparam-case"} ELSE {})
+  \* methods of the generic mock declare the type parameters in their receiver: a parameter of that name redeclares it
+  \cup (IF \E i \in 1..Len(o.scs) : \E k \in 1..Len(o.scs[i].vars) : o.scs[i].vars[k].name \in {Exported(o.tps[x].name) : x \in 1..Len(o.tps)}
+        THEN {"param-vs-tparam"} ELSE {})
+  \cup (IF c.tmpl = "matryer" /\ ~opts.skipensure
+           /\ \E i \in 1..Len(o.tps) : ~ConstraintIsExplicit(o.tps[i].c) /\ ~(o.tps[i].c.k = "basic" /\ o.tps[i].c.n = "any")
+                                        /\ o.tps[i].c.k \notin {"named", "iface"}
+        THEN {"ensure-constraint-text"} ELSE {})
+  \cup UNION {IF c.tmpl = "testify" THEN TestifyMethodIssues(o.ms[i], o.scs[i], opts.unroll)
+              ELSE MatryerMethodIssues(o.ms[i], o.scs[i], opts.stub) : i \in 1..Len(o.scs)}
 
 OptSets == IF c.tmpl = "testify" THEN {[unroll |-> u, skipensure |-> FALSE, stub |-> FALSE] : u \in BOOLEAN}
-           ELSE {[unroll |-> FALSE, skipensure |-> s, stub |-> b] : s \in BOOLEAN, b \in BOOLEAN}
-Issues(opts) ==
-  FileIssues(opts) \cup UNION {IF c.tmpl = "testify" THEN TestifyMethodIssues(Methods[i], scs[i], opts.unroll)
-                               ELSE MatryerMethodIssues(Methods[i], scs[i], opts.stub) : i \in 1..Len(scs)}
+           ELSE {[unroll |-> FALSE, skipensure |-> ~c.ens, stub |-> b] : b \in BOOLEAN}
+Issues(opts) == FileIssues(opts) \cup UNION {IfaceIssues(outs[t], opts) : t \in 1..Len(outs)}
 
 (* ======================================================================== *)
 (* CONTRACT                                                                  *)
-AllSigTypes == UNION {SeqToSet(Types(scs[i], "p")) \cup SeqToSet(Types(scs[i], "r")) : i \in 1..Len(scs)}
-               \cup {TargetTps[i].c : i \in 1..Len(TargetTps)}
+AllScopes == Flatten([t \in 1..Len(outs) |-> outs[t].scs])          \* every method scope of the file
+AllSigTypes == UNION {SeqToSet(Types(AllScopes[i], "p")) \cup SeqToSet(Types(AllScopes[i], "r")) : i \in 1..Len(AllScopes)}
+               \cup UNION {{outs[t].tps[i].c : i \in 1..Len(outs[t].tps)} : t \in 1..Len(outs)}
 Referenced == (UNION {RefPkgs(t) : t \in AllSigTypes}) \ (IF c.inpkg THEN {"SRC"} ELSE {})
-TemplateOwn == IF c.tmpl = "matryer" /\ Len(Methods) > 0 THEN {"Ssync"} ELSE {}
+TemplateOwn == (IF c.tmpl = "matryer" /\ AnyMethods THEN {"Ssync"} ELSE {})
+               \cup (IF c.tmpl = "matryer" /\ c.ens /\ ~c.inpkg THEN {"SRC"} ELSE {})
 
 ImportsBijective == \A p, q \in DOMAIN imp : p # q => imp[p] # imp[q]
 EveryReferencedPackageImported == Referenced \subseteq DOMAIN imp
@@ -292,31 +309,34 @@ DeclaredEqualsUsed == DOMAIN imp = Referenced \cup TemplateOwn          \* requi
 QualifiersValid == \A p \in DOMAIN imp : ValidIdent(imp[p])
 \* per method: final names valid, pairwise distinct, not capturing a qualifier or a type identifier that is the whole type string
 ParamNamesDistinctValidUncaptured ==
-  \A i \in 1..Len(scs) :
-    LET sc == scs[i] ns == [k \in 1..Len(sc.vars) |-> sc.vars[k].name]
+  \A i \in 1..Len(AllScopes) :
+    LET sc == AllScopes[i] ns == [k \in 1..Len(sc.vars) |-> sc.vars[k].name]
         sigquals == {Qual(imp, p) : p \in UNION {RefPkgs(sc.vars[k].t) : k \in 1..Len(sc.vars)}} \ {""}
     IN /\ \A a, b \in 1..Len(ns) : a # b => ns[a] # ns[b]
        /\ \A a \in 1..Len(ns) : ns[a] \notin sigquals
-FooterInvariants == pc = "done" => /\ ImportsBijective /\ EveryReferencedPackageImported /\ NoSelfImportWhenInPackage
+\* every name the allocator generates is an identifier (holds since 4c37ca2)
+GeneratedNamesValid == \A i \in 1..Len(AllScopes) : \A k \in 1..Len(AllScopes[i].vars) : ValidIdent(AllScopes[i].vars[k].name)
+FooterInvariants == pc = "done" => /\ GeneratedNamesValid /\ ImportsBijective /\ EveryReferencedPackageImported /\ NoSelfImportWhenInPackage
                                    /\ DeclaredEqualsUsed /\ QualifiersValid /\ ParamNamesDistinctValidUncaptured
-\* names the allocator *generated* may be invalid identifiers (byte-wise deCapitalise): predicted issue, not a model invariant
-GeneratedNamesValid == \A i \in 1..Len(scs) : \A k \in 1..Len(scs[i].vars) : ValidIdent(scs[i].vars[k].name)
 \* stronger than what AddName(TypeString) guarantees: identifiers nested in composite types (deviation "nested-type-ident")
 NoNestedCapture ==
-  \A i \in 1..Len(scs) :
-    LET sc == scs[i] IN \A a \in 1..Len(sc.vars) : sc.vars[a].name \notin UNION {BareIdents(sc.vars[k].t, c.inpkg) : k \in 1..Len(sc.vars)}
+  \A i \in 1..Len(AllScopes) :
+    LET sc == AllScopes[i] IN \A a \in 1..Len(sc.vars) : sc.vars[a].name \notin UNION {BareIdents(sc.vars[k].t, c.inpkg) : k \in 1..Len(sc.vars)}
 
 (* documented API of the generated mock: an interface with such a method is outside the guarantee *)
 TestifyAPI == {"EXPECT", "Mock", "On", "Called", "Test", "TestData", "MethodCalled", "AssertExpectations", "AssertNumberOfCalls",
                "AssertCalled", "AssertNotCalled", "IsMethodCallable"}
 MatryerAPI(ns) == {n \o "Calls" : n \in ns} \cup {n \o "Func" : n \in ns} \cup {"Reset" \o n \o "Calls" : n \in ns}
                   \cup {"lock" \o n : n \in ns} \cup {"ResetCalls", "calls"}
-MNames == {Methods[i].n : i \in 1..Len(Methods)}
+NamesOf(o) == {o.ms[i].n : i \in 1..Len(o.ms)}
+Main == outs[Len(outs)]                       \* the target proper (last interface of the file)
+MNames == NamesOf(Main)
 \* types of the package under test that cannot be named from another package
 UsesUnnameable == \E t \in AllSigTypes : \E n \in LocalNames(t) : ~IsExportedName(n)
 InGuarantee ==
-  /\ IF c.tmpl = "testify" THEN MNames \cap TestifyAPI = {} ELSE MNames \cap MatryerAPI(MNames) = {}
-  /\ c.inpkg \/ (~UsesUnnameable /\ IsExportedName(Prog.target) /\ \A n \in MNames : IsExportedName(n))
+  /\ \A t \in 1..Len(outs) : IF c.tmpl = "testify" THEN NamesOf(outs[t]) \cap TestifyAPI = {}
+                               ELSE NamesOf(outs[t]) \cap MatryerAPI(NamesOf(outs[t])) = {}
+  /\ c.inpkg \/ (~UsesUnnameable /\ \A t \in 1..Len(outs) : IsExportedName(outs[t].n) /\ \A n \in NamesOf(outs[t]) : IsExportedName(n))
   /\ Prog.guarantee
 
 \* C02: methods the mock may have beyond the interface's -- its documented API
@@ -330,50 +350,45 @@ Expect == [guarantee |-> InGuarantee, exit |-> 0, typechecks |-> TRUE]
 (* ------------------------------------------------------------------------ *)
 (* Export: one PRED line per (program, template, inpkg) at the final state,  *)
 (* one PROG line per program.                                                *)
-MethodOut(i) == [n |-> Methods[i].n, va |-> Methods[i].va, ps |-> Names(scs[i], "p"), rs |-> Names(scs[i], "r"),
-                 origps |-> [k \in 1..Len(Methods[i].ps) |-> Methods[i].ps[k].n],
-                 origrs |-> [k \in 1..Len(Methods[i].rs) |-> Methods[i].rs[k].n]]
-AllNames == UNION {{scs[i].vars[k].name : k \in 1..Len(scs[i].vars)} : i \in 1..Len(scs)}
-ModelIssues == (IF \E n \in AllNames : Len(n) >= 8 /\ SubSeq(n, 1, 8) = Bad THEN {"generated-name-invalid"} ELSE {})
-               \cup (IF \E n \in AllNames : Len(n) >= 7 /\ SubSeq(n, 1, 7) = BadU THEN {"generated-name-unsafe"} ELSE {})
-               \cup (IF \E n \in AllNames : ~ValidIdent(n) /\ ~IsBad(n) THEN {"generated-name-keyword"} ELSE {})
-               \cup (IF NoNestedCapture THEN {} ELSE {"nested-type-ident"})
+MethodOut(o, i) == [n |-> o.ms[i].n, va |-> o.ms[i].va, ps |-> Names(o.scs[i], "p"), rs |-> Names(o.scs[i], "r"),
+                    origps |-> [k \in 1..Len(o.ms[i].ps) |-> o.ms[i].ps[k].n],
+                    origrs |-> [k \in 1..Len(o.ms[i].rs) |-> o.ms[i].rs[k].n]]
+IfaceOut(o) == [n |-> o.n, methods |-> [i \in 1..Len(o.scs) |-> MethodOut(o, i)], tps |-> o.tps]
+ModelIssues == IF NoNestedCapture THEN {} ELSE {"nested-type-ident"}
 \* Every way the code-shaped model breaks the contract today is a NAMED deviation (DESIGN section 8 / known_findings.jsonl);
 \* a new, unnamed one fails this invariant at model level.
 NamedDeviations == {"tpl-redeclare",           \* D11 rest: parameter named like an identifier the template declares
                     "tpl-capture",             \* N2/N4: parameter (or the matryer receiver `mock`) captures an identifier the body uses
                     "tpl-capture-type",        \* N10: testify Run() closure locals capture an in-package type name
-                    "unroll-multi-return",     \* N5: testify unroll-variadic, >= 2 results
                     "matryer-field-dup",       \* N8
                     "import-qual-clash",       \* N3: testify's hard-coded `mock` import
                     "import-vs-local-decl",    \* N9
                     "tparam-case",             \* D13
                     "param-vs-tparam",         \* N7
-                    "ensure-src-qualifier",    \* N1
                     "ensure-constraint-text",  \* D13 (matryer ensure line)
-                    "generated-name-invalid",  \* N6
-                    "generated-name-unsafe",   \* N11
-                    "generated-name-keyword",
                     "nested-type-ident"}       \* N2: only whole type strings are registered in the method scope
 DeviationsNamed == pc = "done" => (ModelIssues \cup UNION {Issues(o) : o \in OptSets}) \subseteq NamedDeviations
 
-Pred == [pid |-> Prog.pid, tmpl |-> c.tmpl, inpkg |-> c.inpkg,
+Pred == [pid |-> Prog.pid, tmpl |-> c.tmpl, inpkg |-> c.inpkg, ens |-> c.ens,
          expect |-> Expect,
          imports |-> imp,
-         methods |-> [i \in 1..Len(scs) |-> MethodOut(i)],
-         tps |-> tps,
+         methods |-> IfaceOut(Main).methods,                                 \* the target proper
+         tps |-> Main.tps,
+         ifaces |-> [t \in 1..Len(outs) |-> IfaceOut(outs[t])],              \* every interface of the file, in order
          extras |-> [resets |-> AllowedExtras(TRUE), noresets |-> AllowedExtras(FALSE)],
          modelissues |-> ModelIssues,
          issues |-> {[opts |-> o, tags |-> Issues(o)] : o \in OptSets}]
 \* the enumerated program must be legal Go: unique method names, distinct non-blank parameter/result names per method
 NamesDistinct(m) == LET ns == [i \in 1..(Len(m.ps) + Len(m.rs)) |-> IF i <= Len(m.ps) THEN m.ps[i].n ELSE m.rs[i - Len(m.ps)].n]
                     IN \A a, b \in 1..Len(ns) : (a # b /\ ns[a] \notin {"", "_"}) => ns[a] # ns[b]
-WellFormedProgram == /\ WellFormedMethodSet(TargetMethodSet(Prog.decls, Prog.target))
+WellFormedProgram == /\ \A n \in DOMAIN Prog.decls : WellFormedMethodSet(TargetMethodSet(Prog.decls, n))
+                     /\ Prog.targets[Len(Prog.targets)] = Prog.target
                      /\ \A d \in Range(Prog.decls) : \A i \in 1..Len(d.ms) : NamesDistinct(d.ms[i])
 Emit ==
-  /\ (pc = "methods" /\ j = 1 /\ c.tmpl = "testify" /\ c.inpkg) =>
-        PrintT(<<"PROG", ToJson([prog |-> Prog, methods |-> Methods, wellformed |-> WellFormedProgram,
-                                 targs |-> TargTuples(TargetTps), dm |-> ExpData(Methods, TargetTps),
+  /\ (pc = "methods" /\ j = 1 /\ ti = 1 /\ c.tmpl = "testify" /\ c.inpkg) =>
+        PrintT(<<"PROG", ToJson([prog |-> Prog, methods |-> MethodsOf(Prog, Prog.target), wellformed |-> WellFormedProgram,
+                                 targs |-> TargTuples(Prog.decls[Prog.target].tps),
+                                 dm |-> ExpData(MethodsOf(Prog, Prog.target), Prog.decls[Prog.target].tps),
                                  \* C02, several interfaces mocked into one file: method set / type arguments of every declaration
                                  sets |-> [n \in DOMAIN Prog.decls |-> SortByRank(TargetMethodSet(Prog.decls, n))],
                                  alltargs |-> [n \in DOMAIN Prog.decls |-> TargTuples(Prog.decls[n].tps)]])>>)
